@@ -42,11 +42,13 @@ THEOREM_CLASSES = {
     "C17_tonumber_exact": "main", "C17_trunc_floor_ceil_exact": "main", "C17_bytes_exact": "main", "C17_todecsci_exact": "corollary",
     "C17_objects_unary": "main", "C17_objects_binary": "main", "C17_objects_shift_rotate": "main", "C17_objects_division": "main",
     "C17_objects_pow_scalar": "main",
+    "C17_rotate_reduction_needed": "refutation", "C17_upowmod_mulmod_needed": "refutation", "C17_literal_check_needed": "refutation",
 }
 ALLOWED_AXIOMS = []
 TRUSTED_BASE = [
     "coqc 8.16.1 kernel (vm_compute used for parameter facts; no native_compute)",
     "no axioms: every theorem of coq/C17/Properties.v is 'Closed under the global context'",
+    "policy discriminators scraped into Gen.v (upowmod_mulmod, rot_reduces_count, dec_literal_checked): the three repaired functions are modelled for both policies, the exact theorems are proved from the fact that the scraped policy is the repaired one and the `_needed` theorems refute the other policy",
     "translator checks/C17.py:gen (regex scrape of bint(<bits>) in utils/bn.lua, of the word-size default and of the BASE_LETTERS string in thirdparty/bint.lua)",
     "extraction: Require Extraction + ExtrOcamlBasic only (bool,option,unit,list,prod,sumbool,sumor mapped to OCaml; Z/N/positive/nat stay Coq inductives); no Extract Constant of our own",
     "ocaml/zutil.ml + coq/C17/driver.ml (hex text <-> extracted Z), harness/C17/ops.lua (calls bn/bint), OCaml 4.13.1, gcc (interpreter rebuilt from /repo/src)",
@@ -97,10 +99,52 @@ def gen(ctx):
         raise RuntimeError("cannot find the BASE_LETTERS table in bint.lua")
     nletters, letters = int(m3.group(1)), m3.group(2)
     codes = [ord(c) for c in letters[:nletters]]
+    # ---- policy discriminators of the three repairs the model mirrors: a revert flips a boolean of Gen.v and the
+    # theorems that depend on the repaired policy no longer check (their proofs use the fact lemmas about these) ----
+    def fbody(text, head):
+        i = text.find(head)
+        if i < 0:
+            raise RuntimeError("cannot find %r" % head)
+        j = text.find("\nend\n", i)
+        return text[i:j]
+    up = fbody(bint, "function bint.upowmod(")
+    if "umulmod(z, x, m)" in up and "umulmod(x, x, m)" in up and "function umulmod(" in bint and "function uaddmod(" in bint:
+        upowmod_mulmod = True
+    elif re.search(r"bint_umod\(\s*z\s*\*\s*x\s*,\s*m\s*\)", up) and re.search(r"bint_umod\(\s*x\s*\*\s*x\s*,\s*m\s*\)", up):
+        upowmod_mulmod = False
+    else:
+        raise RuntimeError("cannot classify how bint.upowmod multiplies (neither umulmod(..) nor bint_umod(a*b, m))")
+    rl, rr = fbody(bint, "function bint.brol("), fbody(bint, "function bint.bror(")
+    red = [bool(re.search(r"y\s*=\s*y\s*%\s*BINT_BITS", b)) for b in (rl, rr)]
+    old = [("if y > 0 then" in b and "math_mininteger" in b) for b in (rl, rr)]
+    if all(red) and not any(old):
+        rot_reduces = True
+    elif all(old) and not any(red):
+        rot_reduces = False
+    else:
+        raise RuntimeError("cannot classify bint.brol/bror (count reduced modulo BINT_BITS or not)")
+    dec_branch = bn[bn.find("else -- should be a decimal number"):]
+    dec_branch = dec_branch[:dec_branch.find("return n, 10")]
+    if not dec_branch:
+        raise RuntimeError("cannot find the decimal branch of bn.from")
+    if re.search(r"bn\.todecint\(n\)\s*~=\s*digits", dec_branch) and "v:match('^0*(%d+)$')" in dec_branch:
+        dec_checked = True
+    elif re.fullmatch(r"else -- should be a decimal number\s*local n = bn\.parse\(v\)\s*assert\(n, 'malformed number'\)\s*", dec_branch):
+        dec_checked = False
+    else:
+        raise RuntimeError("cannot classify the decimal branch of bn.from (range test present or not)")
+    cb = lambda b: "true" if b else "false"
     txt = ("(* GENERATED by checks/C17.py from /repo (bn.lua, bint.lua) - do not edit *)\n"
            "From Coq Require Import ZArith List.\n"
            "Definition bint_bits : Z := %d%%Z.\nDefinition word_bits : Z := %d%%Z.\n"
-           "Definition base_letters : list Z := (%s nil)%%list.\n" % (bits, wordbits, "".join("%d%%Z :: " % c for c in codes)))
+           "Definition base_letters : list Z := (%s nil)%%list.\n"
+           "(* upowmod multiplies modulo m through umulmod/uaddmod (true) or as bint_umod(a*b, m) (false) *)\n"
+           "Definition upowmod_mulmod : bool := %s.\n"
+           "(* brol/bror reduce the count modulo BINT_BITS first (true) or branch on its sign (false) *)\n"
+           "Definition rot_reduces_count : bool := %s.\n"
+           "(* bn.from's decimal branch tests todecint(n) against the digits read (true) or keeps the parsed value (false) *)\n"
+           "Definition dec_literal_checked : bool := %s.\n"
+           % (bits, wordbits, "".join("%d%%Z :: " % c for c in codes), cb(upowmod_mulmod), cb(rot_reduces), cb(dec_checked)))
     vlib.write_if_changed(os.path.join(vlib.coq_dir(ID), "Gen.v"), txt)
     set_width(bits, wordbits)
     global FP_SCALE
@@ -109,7 +153,8 @@ def gen(ctx):
     FP_SCALE = 5 if changed else 1
     if changed and ctx is not None:
         ctx.note("source text of %s differs from the modelled revision: random budget x%d" % (", ".join(changed), FP_SCALE))
-    return {"bint_bits": bits, "word_bits": wordbits, "base_letters": letters[:nletters], "fingerprints": fps,
+    return {"bint_bits": bits, "word_bits": wordbits, "base_letters": letters[:nletters],
+            "upowmod_mulmod": upowmod_mulmod, "rot_reduces_count": rot_reduces, "dec_literal_checked": dec_checked, "fingerprints": fps,
             "changed_since_modelled": changed}
 
 
